@@ -156,6 +156,7 @@ var (
 )
 
 type world struct {
+	rcvNext      bool // the completion being executed reports BytesReceived although it failed
 	discardedAff bool // a BIND/UNBIND pick was discarded by gRPC earlier in this history
 	latePanic    string
 	rmProbes     []rmProbe
@@ -1312,7 +1313,9 @@ func (w *world) opDone(op *Op) {
 	} else if -op.Idx <= len(w.calls) {
 		ci = len(w.calls) + op.Idx
 	}
+	w.rcvNext = op.Rcv
 	w.doDone(ci, op.Out, op.Rep, op.Reply)
+	w.rcvNext = false
 }
 
 func (w *world) doDone(ci, outcome, rep int, replyKeys []int) {
@@ -1384,7 +1387,10 @@ func (w *world) doDone(ci, outcome, rep int, replyKeys []int) {
 			}
 		}()
 		// a real attempt sent something; a successful one also received (a discarded pick did neither)
-		c.done(balancer.DoneInfo{Err: err, BytesSent: !discarded, BytesReceived: !discarded && err == nil})
+		if w.rcvNext && err != nil && !discarded {
+			w.labels["failed-completion-with-bytes-received"]++
+		}
+		c.done(balancer.DoneInfo{Err: err, BytesSent: !discarded, BytesReceived: !discarded && (err == nil || w.rcvNext)})
 	}()
 	c.cancel()
 	if !c.hasIC && c.m.Cmd != "" {
@@ -1538,10 +1544,17 @@ func (w *world) opAdv(op *Op) {
 			w.labels["advance-to-detector-boundary"]++
 		}
 	}
-	if len(w.pend) > 0 && d > 10*time.Second {
+	limit := 10 * time.Second
+	if op.Mode == 2 {
+		limit = 125 * time.Second // the long-wait composite: minutes of polling are affordable for a few waiting picks
+	}
+	if len(w.pend) > 0 && d > limit {
 		// a blocked round-robin pick polls every 100 ms of virtual time: long jumps would only burn real CPU
-		d = 10 * time.Second
+		d = limit
 		w.labels["advance-capped-while-bind-blocked"]++
+	}
+	if len(w.pend) > 0 && d >= time.Minute {
+		w.labels["bind-waits-a-minute-or-more"]++
 	}
 	if d > 0 {
 		if time.Since(bubbleEpoch())+d > 250*365*24*time.Hour {
